@@ -3,7 +3,7 @@ import json
 import os
 import struct
 
-from vf import monitors, observe, sim as S, walk
+from vf import gen, monitors, observe, sim as S, walk
 from vf.ref import codec
 from vf.sim import State
 
@@ -13,7 +13,7 @@ RULE = ('histories through the real main_loop with a table monitor (no duplicate
         '(a) exhaustive interleavings with <=1 duplicated datagram and sampled ones with <=3 duplicates of IKE rekey / delete '
         'exchanges from either side, (b) a hub with several peers and simultaneous initiations under random schedules with '
         'duplication, (c) header SPI x flag x exchange-type matrix of forged datagrams, (d) status query compared with the table, '
-        '(e) kernel EXPIRE routing incl. a peer-chosen SPI collision (notices echo the xfrm_usersa_info the SA was installed with; same-family, 4in6 and 6in4 tunnels). distinct = distinct action sequences / matrix cells.')
+        '(f) IKE_SA_INIT requests that cannot be processed (truncated, bad lengths, wrong first payload) leave nothing in the table and the next negotiation with that peer works; (e) kernel EXPIRE routing incl. a peer-chosen SPI collision (notices echo the xfrm_usersa_info the SA was installed with; same-family, 4in6 and 6in4 tunnels). distinct = distinct action sequences / matrix cells.')
 ASSUMPTIONS = ['peers run the repository code; forged datagrams carry no valid checksum (routing is observed, not acceptance)',
                'the SPI collision is produced by forcing the peer\'s os.urandom for its inbound SPI (ESP SPIs are public on the wire)']
 SHARDS = {'quick': 8, 'thorough': 16}
@@ -426,6 +426,43 @@ def run(ck):
                                 ck.violation('route:forged-header-changed-the-sad', {'cell': (ni, nr, flags, exch)}, sim.case)
         ck.sample({'matrix_cell_example': ['own0', 'peer0', 0x08, 37]})
 
+    # (f) IKE_SA_INIT requests that cannot be processed (fatal error for the IKE_SA they would create): nothing may stay in the table, and the next
+    # negotiation with that peer - started by the peer or by an ACQUIRE here - works
+    from vf.ref import codec as _codec
+    for w in range(24 if not ck.thorough() else 400):
+        if not ck.mine(w):
+            continue
+        sim, hub, (p1, p2) = S.make_star(base + 613 * w, peers=2, v6=bool(w % 4 == 3))
+        sim.case = {'family': 'unprocessable-ike-sa-init', 'w': w}
+        for m in mons:
+            m.reset()
+            sim.monitors.append(m.on_step)
+        rngf = ck.rng('badinit', w)
+        good = _codec.encode_clear(dict(gen.typical_messages(rngf)['ike_sa_init'], spi_r=b'\0' * 8, spi_i=gen.rb(rngf, 8)))
+        variants = [good[:rngf.randrange(29, len(good))], good[:28] + gen.rb(rngf, 40), good[:30] + b'\xff\xff' + good[32:], good[:16] + b'\x2e' + good[17:],
+                    good[:28], good + b'\0\0\0', good[:16] + b'\xc8' + good[17:]]
+        src = str(p1.addrs[0])
+        sim.direct_dispatch = w % 3 == 2
+        for d in rngf.sample(variants, 4):
+            b_ = bytearray(d)
+            b_[24:28] = len(b_).to_bytes(4, 'big') if rngf.random() < 0.5 else b_[24:28]
+            sim.inject(hub, src, str(hub.addrs[0]), bytes(b_))
+            sim.net.clear()
+            ck.count('badinit.requests')
+        sim.direct_dispatch = False
+        left = [(x.state.name, x.is_initiator) for x in hub.ctl.ike_sas]
+        if left:
+            ck.violation('ike-sa-init-request-that-could-not-be-processed-left-an-ike-sa-in-the-table', {'table': left}, sim.case)
+        # the hub's own negotiation with that peer (an ACQUIRE) must go through
+        sim.acquire(hub, 0, dport=6100 + w)
+        sim.drain()
+        ok = any(x.state.name == 'ESTABLISHED' and x.is_initiator and x.child_sas for x in hub.ctl.ike_sas) and any(x.state.name == 'ESTABLISHED' for x in p1.ctl.ike_sas)
+        ck.count('badinit.runs')
+        ck.nontrivial(('badinit', w % 7, ok))
+        if not ok:
+            ck.violation('negotiation-after-unprocessable-ike-sa-init-requests-failed', {'hub': [(x.state.name, x.is_initiator) for x in hub.ctl.ike_sas], 'p1': [x.state.name for x in p1.ctl.ike_sas]}, sim.case)
+        check_status(ck, sim, hub)
+
     # (e) EXPIRE routing with a peer-chosen SPI collision (hub, P1, P2)
     ncol = 12 if not ck.thorough() else 200
     for w in range(ncol):
@@ -522,6 +559,7 @@ def verdict(ck):
     ck.floor('status queries', ck.counters['status.queries'], 1000)
     ck.floor('expire notices', ck.counters['expire.checked'], 100)
     ck.floor('SPI collision set-ups', ck.counters['collision.setups'], 6)
+    ck.floor('runs with IKE_SA_INIT requests that cannot be processed', ck.counters['badinit.runs'], 20)
     ck.floor('SPI collision star kinds (same family, 4in6, 6in4)', len(ck.sets['collision.star_kinds']), 3)
     ck.floor('SPI collision set-ups inside one IKE_SA', ck.counters['collision.same_ike_sa_setups'], 6)
     ck.floor('held-DELETE histories', ck.counters['held.leaves'], 40)
